@@ -28,27 +28,75 @@ func checkC10(w *World, r *Result) {
 }
 
 func checkEnumMembers(w *World, r *Result) {
-	fi := w.MustFunc("analysis.fetchPkgEnums")
-	info := fi.Pkg.TypesInfo
-	name := fi.Name
+	root := w.MustFunc("analysis.fetchPkgEnums")
+	info := root.Pkg.TypesInfo
 	membersField := w.Field("analysis", "Enum", "Members")
+	// the statement that adds a member (an append of an EnumMember to Enum.Members): in fetchPkgEnums, or in a helper
+	// of the package it calls; other assignments to Members (a later filtering pass) are not the anchor
 	var app *ast.AssignStmt
+	fi := root
 	n := 0
-	ast.Inspect(fi.Decl.Body, func(x ast.Node) bool {
-		as, ok := x.(*ast.AssignStmt)
-		if !ok || len(as.Lhs) != 1 {
+	for _, cf := range calleeClosure(w, root, 1) {
+		ast.Inspect(cf.Decl.Body, func(x ast.Node) bool {
+			as, ok := x.(*ast.AssignStmt)
+			if !ok || len(as.Lhs) != 1 || len(as.Rhs) != 1 {
+				return true
+			}
+			sel, ok := as.Lhs[0].(*ast.SelectorExpr)
+			if !ok || info.Uses[sel.Sel] != membersField {
+				return true
+			}
+			call, ok := as.Rhs[0].(*ast.CallExpr)
+			if !ok || !isBuiltinCall(info, call, "append") || len(call.Args) != 2 {
+				return true
+			}
+			if _, isLit := ast.Unparen(call.Args[1]).(*ast.CompositeLit); !isLit {
+				return true
+			}
+			n++
+			app, fi = as, cf
 			return true
-		}
-		sel, ok := as.Lhs[0].(*ast.SelectorExpr)
-		if !ok || info.Uses[sel.Sel] != membersField {
-			return true
-		}
-		n++
-		app = as
-		return true
-	})
+		})
+	}
+	name := fi.Name
 	if n != 1 {
-		Undecided("fetchPkgEnums: %d assignments to Enum.Members (expected 1)", n)
+		Undecided("fetchPkgEnums: %d appends of a member to Enum.Members (expected 1)", n)
+	}
+	// AGR-C10t: the enum a member is appended to lives in a table created by this very call (`out := make(enumsMap)`):
+	// a table handed in from outside keeps the enums of earlier calls, and a package reached twice through the
+	// import graph (a diamond) gets every member twice
+	{
+		var tables []types.Object
+		ast.Inspect(fi.Decl.Body, func(x ast.Node) bool {
+			ix, ok := x.(*ast.IndexExpr)
+			if !ok || identOf(ix.X) == nil {
+				return true
+			}
+			mt, ok := info.TypeOf(ix.X).Underlying().(*types.Map)
+			if !ok || !strings.HasSuffix(mt.Elem().String(), "analysis.Enum") {
+				return true
+			}
+			tables = append(tables, objOf(info, identOf(ix.X)))
+			return true
+		})
+		fresh := len(tables) > 0
+		why := ""
+		for _, t := range tables {
+			ds := defsIn(info, fi.Decl, t)
+			ok := len(ds) == 1
+			if ok {
+				call, isCall := ast.Unparen(ds[0]).(*ast.CallExpr)
+				_, isLit := ast.Unparen(ds[0]).(*ast.CompositeLit)
+				ok = isLit || (isCall && isBuiltinCall(info, call, "make"))
+			}
+			if !ok {
+				fresh = false
+				why = t.Name()
+			}
+		}
+		r.cond(fresh, "AGR-C10t", name, "members are appended to enums of a table created by this call", w.Pos(app.Pos()),
+			"the enum table is a map made in this function: each visit of a package builds its enums from scratch",
+			"the enums are looked up in `"+why+"`, a table that is not created by this call (a parameter or an outer variable): an enum found there from an earlier visit of the same package keeps its members and receives them again, so a package reached through two import paths yields every member twice (and the iota test of the first visit is kept)")
 	}
 	// enclosing range over scope.Names()
 	var loop *ast.RangeStmt
